@@ -199,6 +199,18 @@ func caseBodyB(c *Ctx, fn *ast.FuncDecl, typ string) (*ast.CaseClause, string, e
 	return res, binder, nil
 }
 
+// declOf returns the declaration of a function or method object of the package.
+func (c *Ctx) declOf(obj *types.Func) *ast.FuncDecl {
+	for _, f := range c.Files {
+		for _, d := range f.Decls {
+			if fd, ok := d.(*ast.FuncDecl); ok && c.Info.Defs[fd.Name] == obj {
+				return fd
+			}
+		}
+	}
+	return nil
+}
+
 // hasTypeArm: does fn contain a type switch with an arm listing exactly the type typ?
 func hasTypeArm(c *Ctx, fn *ast.FuncDecl, typ string) bool {
 	if fn.Body == nil {
@@ -536,7 +548,48 @@ func genWire(c *Ctx) (string, error) {
 			})
 		}
 		if inner == nil {
-			return "", fmt.Errorf("%s: the Message arm has no inner type switch", f.name)
+			// the arm may have been moved into a helper of this package: look one call level down
+			for _, st := range cc.Body {
+				ast.Inspect(st, func(n ast.Node) bool {
+					if inner != nil {
+						return false
+					}
+					call, ok := n.(*ast.CallExpr)
+					if !ok {
+						return true
+					}
+					var id *ast.Ident
+					switch fn := call.Fun.(type) {
+					case *ast.Ident:
+						id = fn
+					case *ast.SelectorExpr:
+						id = fn.Sel
+					}
+					if id == nil {
+						return true
+					}
+					obj, ok := c.Info.Uses[id].(*types.Func)
+					if !ok || obj.Pkg() != c.Pkg {
+						return true
+					}
+					if hd := c.declOf(obj); hd != nil && hd != fd && hd.Body != nil {
+						ast.Inspect(hd.Body, func(m ast.Node) bool {
+							if inner != nil {
+								return false
+							}
+							if t, ok := m.(*ast.TypeSwitchStmt); ok {
+								inner = t
+								return false
+							}
+							return true
+						})
+					}
+					return true
+				})
+			}
+		}
+		if inner == nil {
+			return "", fmt.Errorf("%s: the Message arm has no inner type switch (also not in a helper it calls)", f.name)
 		}
 		// the set of types, whatever the order of the arms and however types are grouped into arms
 		// (an arm listing two types is the same as two arms with the same body)
